@@ -9,7 +9,9 @@ def check(run):
                        "(x.op(x)) and rebuild twins; after every call PolyTrace.tla checks the frame condition: every slot other than the "
                        "receiver denotes the same set as before, and copy/assign/swap/alias results equal the definition; distinct = distinct "
                        "(operation, receiver==argument?, status line) triples")
-    plans = [dict(maxlen=9, maxdim=2, ill=0, coef=2, num=(3000 if q else 15000), recipe=True, opset="copy"),
+    # the forced copy-recipe plan has the same size at both tiers; the thorough tier adds the mixed recipe plan
+    plans = [dict(maxlen=9, maxdim=2, ill=0, coef=2, num=3000, recipe=True, opset="copy")] + ([] if q else [dict(maxlen=9, maxdim=2, ill=0, coef=2, num=15000, recipe=True)]) + [
+
              dict(maxlen=14, maxdim=2, ill=2, coef=2, num=(1500 if q else 6000)),
              dict(maxlen=10, maxdim=3, ill=2, coef=2, num=(900 if q else 4000))]
     polylib.model_pass(run, ['PolyWorld1.cfg'])
